@@ -4,6 +4,46 @@
 #[allow(unused_imports)]
 use super::*;
 
+// a well-behaved dynamic assertion (content is exactly `reserve_size` bytes of CBOR) on top of the test signer
+#[cfg(test)]
+struct NoteAssertion;
+#[cfg(test)]
+impl crate::dynamic_assertion::DynamicAssertion for NoteAssertion {
+    fn label(&self) -> String {
+        "org.example.note".to_string()
+    }
+    fn reserve_size(&self) -> Result<usize> {
+        Ok(1024)
+    }
+    fn content(&self, _label: &str, size: Option<usize>, _claim: &crate::dynamic_assertion::PartialClaim) -> Result<crate::dynamic_assertion::DynamicAssertionContent> {
+        let total = size.unwrap_or(1024);
+        let text_len = total - 3;
+        let mut cbor = vec![0x79, (text_len >> 8) as u8, (text_len & 0xff) as u8];
+        cbor.resize(total, b'x');
+        Ok(crate::dynamic_assertion::DynamicAssertionContent::Cbor(cbor))
+    }
+}
+#[cfg(test)]
+struct DynSigner(crate::signer::BoxedSigner);
+#[cfg(test)]
+impl crate::Signer for DynSigner {
+    fn sign(&self, data: &[u8]) -> Result<Vec<u8>> {
+        self.0.sign(data)
+    }
+    fn alg(&self) -> crate::SigningAlg {
+        self.0.alg()
+    }
+    fn certs(&self) -> Result<Vec<Vec<u8>>> {
+        self.0.certs()
+    }
+    fn reserve_size(&self) -> usize {
+        self.0.reserve_size()
+    }
+    fn dynamic_assertions(&self) -> Vec<Box<dyn crate::dynamic_assertion::DynamicAssertion>> {
+        vec![Box::new(NoteAssertion)]
+    }
+}
+
 #[test]
 fn c15_sign_embeddable_size_contract() {
     use crate::utils::test::test_context;
@@ -15,11 +55,17 @@ fn c15_sign_embeddable_size_contract() {
     let defs = [r#"{"title":"t","assertions":[]}"#, r#"{"title":"a longer title for the manifest definition","assertions":[{"label":"org.example.note","data":{"k":"v"}}]}"#];
     for format in formats {
         for def in defs {
+          for dynamic in [false, true] {
             for n_ranges in 1..=14u64 {
                 for base in [10u64, 70_000, 5_000_000_000] {
                     evals += 1;
                     let run = || -> Result<(usize, Result<Vec<u8>>)> {
-                        let mut builder = Builder::from_context(test_context()).with_definition(def)?;
+                        let ctx = if dynamic {
+                            test_context().with_signer(DynSigner(crate::utils::test_signer::test_signer(crate::SigningAlg::Ps256)))
+                        } else {
+                            test_context()
+                        };
+                        let mut builder = Builder::from_context(ctx).with_definition(def)?;
                         builder.set_intent(BuilderIntent::Create(DigitalSourceType::Empty));
                         let placeholder = builder.placeholder(format)?;
                         let mut ex = Vec::new();
@@ -61,16 +107,17 @@ fn c15_sign_embeddable_size_contract() {
                                 let c = counts.entry(k.to_string()).or_insert(0);
                                 *c += 1;
                                 if *c <= 3 {
-                                    println!("VERIF-B-VIOLATION key={k} input=format={format} ranges={n_ranges} base_offset={base} placeholder={ph} signed={}", v.len());
+                                    println!("VERIF-B-VIOLATION key={k} input=format={format} dynamic_assertion={dynamic} ranges={n_ranges} base_offset={base} placeholder={ph} signed={}", v.len());
                                 }
                             }
                         }
                     }
                 }
             }
+          }
         }
     }
     let setup_failed = counts.remove("setup_failed").unwrap_or(0);
     println!("VERIF-B-SAMPLE violation classes this run: {:?}; set-up failures: {setup_failed}", counts);
-    println!("VERIF-B unit=builder test=c15_sign_embeddable_size_contract evaluations={evals} nontrivial={nontrivial} exhaustive=true domain=formats {:?} x 2 manifest definitions x 1..=14 exclusion ranges x base offsets {{10, 70000, 5e9}}", formats);
+    println!("VERIF-B unit=builder test=c15_sign_embeddable_size_contract evaluations={evals} nontrivial={nontrivial} exhaustive=true domain=formats {:?} x 2 manifest definitions x signer {{plain, with a dynamic assertion}} x 1..=14 exclusion ranges x base offsets {{10, 70000, 5e9}}", formats);
 }
